@@ -218,7 +218,9 @@ def stale_cleanup(F, R):
                 else:
                     break
         return False
-    errs = [e for e in errs if start is not None and not own_residual(e)]
+    # ... spelled `?`, `fail!(when ..)` or an explicit match with a returning Err arm: exits under the Err arm of the decision on the
+    # acquisition's own result happen without a cleaner
+    errs = [e for e in errs if start is not None and not own_residual(e) and not lib.under_arm(f, F, e, start, ('Err', 'Break'))]
     key = 'NO-ERR-AFTER::%s::cleaner-abandoned-on-error' % fnkey(f)
     if start is None or not ab:
         R.ob('NO-ERR-AFTER', key, False, 'anchor-missing: cleaner creation (%s) / abandon() calls (%d)' % (start, len(ab)), f.file, f)
